@@ -70,23 +70,32 @@ def rule_K(ck, lib, pfx):
     read_id = R_out[1]
     buf_id = buf[1]
     data = runs.pop()
-    ok = data[0] == "index" and data[1][0] == "loopvar" and data[1][1] == buf_id and data[2][0] == "call" and data[2][1].endswith("RangeInclusive::new")
+    import slicelin
+    kind_, P_in, last_ = slicelin.rng_parts(data[2]) if data[0] == "index" else (None, None, None)
+    ok = data[0] == "index" and data[1][0] == "loopvar" and data[1][1] == buf_id and kind_ in ("RangeInclusive", "Range")
     if not ck.judge(ok, pfx + "-K3", "process:run-input", "run(&cmd_buf[proc_offset..=terminator_pos])", "run receives %s, not cmd_buf[proc..=term]" % show_term(data)):
         return
-    P_in, term = data[2][2]
     ok = P_in[0] == "loopvar"
     if not ck.judge(ok, pfx + "-K3", "process:run-input:start", "run input starts at the processed offset %s" % show_term(P_in), "run input starts at %s (not a loop-carried offset)" % show_term(P_in)):
         return
     proc_id = P_in[1]
-    # term = R_in + pos
-    lt = lin(term)
+    # term = R_in + pos   (the last byte handed to run; for an exclusive range `..end` that is end - 1)
+    lt = lin(last_)
+    if kind_ == "Range":
+        lt = lt - linform.Lin({}, 1)
     pos_atoms = [a for a in lt.coeffs if a[0] == "payload" and a[2] == SOME and a[1][0] == "call" and a[1][1].endswith("::position")]
-    rin_atoms = [a for a in lt.coeffs if a[0] == "loopvar" and a[1] == read_id]
+    rin_atoms = [a for a in lt.coeffs if a[0] == "loopvar"]
     ok = len(pos_atoms) == 1 and len(rin_atoms) == 1 and lt.const == 0 and len(lt.coeffs) == 2 and all(v == 1 for v in lt.coeffs.values())
     if not ck.judge(ok, pfx + "-K2", "process:terminator-pos", "term = read + pos: %r" % lt, "terminator position is %r, expected read_offset + position" % lt):
         return
     pos = pos_atoms[0]
     R_in = rin_atoms[0]
+    scan_id = R_in[1]
+    # the scan starts where the previous read stopped: at every entry of the scan loop its offset is the read offset
+    ent = ps.loops.get(R_in[3], {}).get("entry", [])
+    ok = bool(ent) and all(S(st_.env.get(scan_id)) == S(R_out) for st_ in ent if st_.env.get(scan_id) is not None) and all(st_.env.get(scan_id) is not None for st_ in ent)
+    ck.judge(ok, pfx + "-K2", "process:scan-start", "the scan loop is entered with its offset = read offset",
+             "the terminator scan does not start at the read offset: %s" % [show_term(st_.env.get(scan_id)) if st_.env.get(scan_id) is not None else None for st_ in ent][:3])
     posc = pos[1]
     scan = posc[2][0]   # iter(slice)
     closure = posc[2][1]
@@ -119,7 +128,7 @@ def rule_K(ck, lib, pfx):
         heads = [e[1] for e in x.effects if e[0] == "loop_head"]
         runcalls = [e for e in x.effects if e[0] == "call" and e[1] == RUN]
         p2 = x.env.get(proc_id)
-        r2 = x.env.get(read_id)
+        r2 = x.env.get(scan_id if x.extra == R_in[3] else read_id)
         data_ = {"path": pathsum.show_exit(x)[:2500]}
         if x.extra == inner_site:
             # K4: inner back-edge
